@@ -25,6 +25,9 @@ def _steps(pl):
 def _what(c):
     if c[0] == "call":
         return "CallStep(run %r, step %r, <input>) with a handler returning output id %r" % (c[1][1], c[2][1], c[4][1])
+    if c[0] == "dcall":
+        return ("CallableStep.Call(run %r, <native input>) called on the step object %r itself, with a handler returning output id %r"
+                % (c[1][1], c[2][1], c[4][1]))
     return "CallSignal(run %r, step %r, signal %r, <data>)" % (c[1][1], c[2][1], c[3][1])
 
 
@@ -63,6 +66,50 @@ def steps_direct(case, obs):
             return "the call did not return: " + what
         is_err = isinstance(res, list) and res[0] == "err"
         cls = res[1] if is_err else None
+        if isinstance(res, list) and res and res[0] == "bad":
+            continue
+        if c[0] == "dcall":
+            # the step object called directly with a native value: Validate of that value (iso[0]) is the only
+            # thing the property lets decide whether the handler runs
+            if iso[0] == "nostep":
+                continue
+            v, ov = iso
+            n_h = len([e for e in h if e[0] == "st"])
+            if _is_ok(v):
+                if n_h != 1 or len(h) != 1:
+                    return "the native input is accepted by the step's input schema but the handler ran %d times: %s" % (n_h, what)
+                if h[0][1][1] != sid:
+                    return "the handler of another step ran: " + what
+                if h[0][3] != c[3]:
+                    return "the handler did not receive exactly the value passed to Call (saw %s): %s" % (h[0][3], what)
+                reached[(sid, run)] = True
+                seen.setdefault((sid, run), set()).add(str(h[0][2]))
+            else:
+                if h:
+                    return ("the step's handler ran on an input that the step's input schema REJECTS (Validate of the native "
+                            "value: %s; a value of the right Go type that violates a constraint is invalid input too) — the "
+                            "handler is not shielded: %s, input %s" % (v, what, str(c[3])[:300]))
+                if v == "err":
+                    if not is_err:
+                        return "a rejected native input did not yield an error: " + what
+                    if cls != "input":
+                        return "a rejected native input is reported with the error type of class %r, not InvalidInputError: %s" % (cls, what)
+                continue
+            if not is_err:
+                if res[1][1] != c[4][1]:
+                    return "Call returned output id %r, the handler returned %r: %s" % (res[1][1], c[4][1], what)
+                if ov == "undeclared":
+                    return "Call returned an UNDECLARED output id without an error: " + what
+                if not _is_ok(ov):
+                    return "Call returned output data that does not satisfy the declared output schema (Validate: %s): %s" % (ov, what)
+                if res[2] != c[5]:
+                    return "Call returned other output data than the handler's: " + what
+            else:
+                if ov == "undeclared" and cls != "output":
+                    return "an undeclared output id is reported with the error type of class %r, not InvalidOutputError: %s" % (cls, what)
+                if cls in ("badarg", "nosuchstep", "input"):
+                    return "an output problem is reported with the error type of class %r (unknown step / rejected input): %s" % (cls, what)
+            continue
         if c[0] == "call":
             if iso[0] == "nostep":
                 if h:
@@ -201,9 +248,11 @@ def steps_stats(rows):
             samples.append({"case": case[:1500], "observed": obs[:800]})
     return {"cases": len(rows), "calls": calls_total, "kinds": kinds, "outcomes": outcomes, "modes": modes,
             "distinct": len(distinct), "distinct_nontrivial": nontrivial,
-            "exhaustive": "every arrival order (all permutations) of 5 fixed operation multisets over 2 steps x 2 run ids "
-                          "(step call, two signals, rejected input, rejected signal data, unknown signal), each sequentially "
-                          "and with goroutines released together",
+            "exhaustive": "every arrival order (all permutations) of 6 fixed operation multisets over 2 steps x 2 run ids "
+                          "(step call, two signals, rejected input, rejected signal data, unknown signal, direct Call with a valid / "
+                          "out-of-range / too-short typed native input), each for step data of a pointer type and of an interface "
+                          "type, with and without an initialiser, sequentially and with goroutines released together (initialisers "
+                          "then take 0.4 ms each)",
             "samples": samples}
 
 
@@ -221,8 +270,12 @@ def register(props):
                 "lists, maps, units, patterns) x 6-11 calls each: raw inputs generated from the input scope and mutated (35%), "
                 "recording handlers returning a declared id with conforming data / mutated data / raw-form data / another "
                 "output's data, or an undeclared id; unknown step ids; signals with known/unknown ids and valid/invalid data; "
-                "plus the order sub-family (every permutation of 5 operation multisets and random multisets of 4-16 operations "
-                "over 2 steps x 3 run ids, run sequentially in that order and concurrently from goroutines released together). "
+                "22% of the step calls go to CallableStep.Call on the step object DIRECTLY with a native input: as Unserialize "
+                "made it, with one scalar leaf of the right Go type breaking a constraint, or mutated at random; 30% of the steps "
+                "have step data of an interface type (StepData = any) instead of a pointer type, with or without initialiser; "
+                "plus the order sub-family (every permutation of 6 operation multisets and random multisets of 4-16 operations "
+                "over 2 steps x 3 run ids, run sequentially in that order and concurrently from goroutines released together, "
+                "every initialiser then taking 0.4 ms so that step and signal arrivals for one run id overlap). "
                 "distinct by case text; non-trivial = at least one handler ran in the case",
         "assumptions": ["the step's Go input type is the type its input scope unserializes to (here `any`): a handler typed to a "
                         "different Go type makes input.(InputType) panic and is outside the property's quantifier",
@@ -230,14 +283,17 @@ def register(props):
                         "the step data is observed by identity (which initialiser run produced it): the initialiser takes no argument"],
         "level_text": "Theorems (all plugins, run-table states, raw inputs, handlers, fuels): the handler log of CallStep is exactly "
                       "[handler(step, n)] when the step exists, Unserialize(input)=Ok n and the re-validation of n passes, and empty "
-                      "otherwise; Ok(out, w) iff the handler ran, out is declared, the data validates and w is its serialization; each "
+                      "otherwise; CallableStep.Call called directly with a native value v runs the handler — once, with v — iff v "
+                      "passes the input schema, a rejected v (right Go type, violated constraint included) gives InvalidInputError "
+                      "and touches nothing, and CallStep = Unserialize ; Call ; Serialize (C11_direct_*, C11_call_step_factors); "
+                      "Ok(out, w) iff the handler ran, out is declared, the data validates and w is its serialization; each "
                       "error provenance is assigned exactly under its condition and unknown-step / rejected-input / undeclared-output map "
                       "to three different Go error types; unknown step or signal ids give errors, never panics, and touch no state; for "
                       "EVERY history of CallStep/CallSignal operations (fold_left) and for every interleaving of setupStepData critical "
                       "sections and handler invocations the initialiser runs exactly once per run id that reaches it — triggered by the "
                       "first arrival — and every handler of a run sees that one value.",
-        "level_note": "Model = Call/Step.v over Schema/Ops.v (hand-written from schema/schema.go, step.go, signal.go after the fix for "
-                      "D22), tied to the code by running the real CallableSchema on generated plugins; the data operations of each call "
+        "level_note": "Model = Call/Step.v over Schema/Ops.v (hand-written from schema/schema.go, step.go, signal.go after the fixes for "
+                      "D22 and D65), tied to the code by running the real CallableSchema on generated plugins; the data operations of each call "
                       "are also observed in isolation so that the property's predicate is evaluated on the implementation alone. "
                       "Goroutine interleavings inside a critical section are not modelled (sync.Mutex is trusted); the concurrent runs "
                       "sample schedules, the theorem covers all of them at mutex granularity.",
